@@ -466,9 +466,90 @@ def explicit_show_table():
     return rows
 
 
+# ----------------------------------------------------------------------------- wrap_callable tables (C03, C16)
+MIXIN = 'line_profiler/profiler_mixin.py'
+
+
+def wrap_dispatch():
+    """[(predicate, method)] of the if/elif chain of wrap_callable, in order; final else as ('else', method)"""
+    tree = ast.parse(src_of(MIXIN))
+    fn = find_func(tree, 'wrap_callable', 'ByCountProfilerMixin')
+    rows = []
+    node = next((s for s in fn.body if isinstance(s, ast.If)), None)
+    while node is not None:
+        pred = ast.unparse(node.test.func) if isinstance(node.test, ast.Call) else ast.unparse(node.test)
+        meth = ast.unparse(node.body[0].value.func) if isinstance(node.body[0], ast.Assign) else ast.unparse(node.body[0])
+        rows.append((pred, meth.replace('self.', '')))
+        if len(node.orelse) == 1 and isinstance(node.orelse[0], ast.If):
+            node = node.orelse[0]
+        else:
+            if node.orelse:
+                st = node.orelse[0]
+                meth = ast.unparse(st.value.func) if isinstance(st, ast.Assign) else ast.unparse(st)
+                rows.append(('else', meth.replace('self.', '')))
+            node = None
+    return rows
+
+
+def wrap_impl_table():
+    """method -> (impl_attrs, args, kwargs, name_attr) of every `self._wrap_callable_wrapper(func, ...)` call, aliases resolved"""
+    tree = ast.parse(src_of(MIXIN))
+    cls = next(n for n in ast.walk(tree) if isinstance(n, ast.ClassDef) and n.name == 'ByCountProfilerMixin')
+    table = {}
+    for st in cls.body:
+        if isinstance(st, ast.FunctionDef):
+            for node in ast.walk(st):
+                if isinstance(node, ast.Call) and ast.unparse(node.func) == 'self._wrap_callable_wrapper':
+                    kw = {k.arg: ast.unparse(k.value) for k in node.keywords}
+                    table[st.name] = (ast.unparse(node.args[1]), kw.get('args', 'None'), kw.get('kwargs', 'None'), kw.get('name_attr', 'None'))
+    rows = []
+    for st in cls.body:
+        if isinstance(st, ast.Assign) and isinstance(st.value, ast.Name) and st.value.id in table:
+            for t in st.targets:
+                rows.append((t.id,) + table[st.value.id])
+        if isinstance(st, ast.FunctionDef) and st.name in table and st.name.startswith('wrap_'):
+            rows.append((st.name,) + table[st.name])
+    return sorted(rows)
+
+
+def underlying_groups():
+    tree = ast.parse(src_of('line_profiler/line_profiler.py'))
+    fn = find_func(tree, '_get_underlying_functions')
+    rows = []
+    for st in fn.body:
+        if isinstance(st, ast.If):
+            t = st.test
+            if isinstance(t, ast.Call) and ast.unparse(t.func) == 'any' and isinstance(t.args[0], ast.GeneratorExp):
+                checks = [ast.unparse(e) for e in t.args[0].generators[0].iter.elts]
+                ret = st.body[0]
+                attr = ast.unparse(ret.value.args[0]) if isinstance(ret, ast.Return) and isinstance(ret.value, ast.Call) else '?'
+                rows.append((','.join(checks), attr))
+            elif isinstance(t, ast.Call) and ast.unparse(t.func) == 'is_property':
+                loop = next((x for x in st.body if isinstance(x, ast.For)), None)
+                rows.append(('is_property', ast.unparse(loop.iter) if loop else '?'))
+            else:
+                rows.append((ast.unparse(t), ast.unparse(st.body[0])[:60]))
+    return rows
+
+
+def gen_wrap_tables():
+    out = ['/-! Tables copied from profiler_mixin.py / line_profiler.py by tools/extract.py — regenerated on every run. -/',
+           'namespace LPVerif.Generated', '']
+    out.append('/-- `wrap_callable`: the if/elif chain (predicate, method), in order -/')
+    out.append('def wrapDispatch : List (String × String) := [%s]' % ', '.join('(%s, %s)' % (lean_str(a), lean_str(b)) for a, b in wrap_dispatch()))
+    out.append('/-- every `_wrap_callable_wrapper` user: (method, impl_attrs, args, kwargs, name_attr) -/')
+    out.append('def wrapImplTable : List (String × String × String × String × String) := [%s]' % ', '.join(
+        '(' + ', '.join(lean_str(x) for x in row) + ')' for row in wrap_impl_table()))
+    out.append('/-- `_get_underlying_functions`: (checks, what is recursed into), in order -/')
+    out.append('def underlyingGroups : List (String × String) := [%s]' % ', '.join('(%s, %s)' % (lean_str(a), lean_str(b)) for a, b in underlying_groups()))
+    out.append('')
+    out.append('end LPVerif.Generated')
+    return '\n'.join(out) + '\n'
+
+
 GENERATORS = [('PreParse.lean', gen_pre_parse), ('RelImport.lean', gen_get_module),
               ('KernprofOptions.lean', gen_kernprof_options), ('ExplicitTables.lean', gen_explicit_tables),
-              ('Explicit.lean', gen_explicit_methods)]
+              ('Explicit.lean', gen_explicit_methods), ('WrapTables.lean', gen_wrap_tables)]
 
 
 def regenerate(log=None):
